@@ -72,7 +72,7 @@ S("boxed", "box_truncate", ["C06", "C08"], "BumpBox<[E]>::truncate(n), any n")
 S("boxed", "box_remove", ["C06", "C08"], "BumpBox<[E]>::remove(i), i < len")
 S("boxed", "box_swap_remove", ["C06", "C08"], "BumpBox<[E]>::swap_remove(i), i < len")
 S("boxed", "box_split_off", ["C16", "C06"], "BumpBox<[E]>::split_off(start..end), every prefix/suffix/empty/full range; then drop either part first")
-S("boxed", "box_split_off_interior", ["C16", "C06"], "split_off of every interior non-empty range (4 concrete shapes for len <= 4, payloads symbolic): both rotate branches")
+S("boxed", "box_split_off_interior", ["C16", "C06"], "split_off of every interior non-empty range for len <= 6 (20 concrete shapes, payloads symbolic): both rotate branches with the real std rotate")
 S("boxed", "box_split_at_merge", ["C16"], "split_at(at) then merge")
 S("boxed", "box_split_first_last", ["C16", "C06"], "split_first / split_last")
 S("boxed", "box_split_off_first_last", ["C16", "C06"], "split_off_first / split_off_last")
@@ -95,7 +95,7 @@ S("fixed", "fixed_truncate_clear", ["C08", "C06"], "truncate(n) / clear")
 S("fixed", "fixed_extend_clone", ["C08", "C07"], "try_extend_from_slice_clone / try_extend_from_within_clone / try_resize (0..2 new elements)")
 S("fixed", "fixed_append", ["C06", "C08", "C07"], "try_append(BumpBox<[E]>) with 0..2 elements: ownership hand-over, all-or-nothing")
 S("fixed", "fixed_split_off", ["C16", "C08"], "FixedBumpVec::split_off prefix/suffix/empty/full: partition, capacities add up, parts independent")
-S("fixed", "fixed_split_off_interior", ["C16", "C08"], "FixedBumpVec::split_off interior ranges (4 concrete shapes)")
+S("fixed", "fixed_split_off_interior", ["C16", "C08"], "FixedBumpVec::split_off of every interior range for len <= 6 (20 concrete shapes)")
 S("fixed", "fixed_split_at_spare", ["C16"], "split_at_spare")
 S("fixed", "fixed_try_reserve", ["C07", "C08"], "try_reserve(additional), any usize")
 S("fixed", "fixed_zst_capacity", ["C08", "C06"], "zero-sized elements: capacity usize::MAX, 0..3 pushes")
@@ -153,13 +153,13 @@ def A(mod, name, props, inst, tags=(), **kw):
     H("kani-arena", "%s::%s" % (mod, name), props, stubbing=True, inst=inst, unwind=6, note=AR_STUBS, tags=tags, **kw)
 
 
-OPS_ALL = ["op0", "op1", "op2", "op3", "op4", "op5", "unfit"]
+OPS_ALL = ["op0", "op1", "op2", "op3", "op4", "op5", "op6", "unfit"]
 STEP_PROPS = ["C01", "C02", "C13"]
 for name, inst, tags, tier in [
     ("step_up1_bump_b0", "up, MIN_ALIGN 1, &Bump, no new chunk: all 6 ops", OPS_ALL + ["up", "b0"], "quick"),
     ("step_down1_bump_b0", "down, MIN_ALIGN 1, &Bump, no new chunk: all 6 ops", OPS_ALL + ["b0"], "quick"),
     ("step_up8_bump_b0", "up, MIN_ALIGN 8", OPS_ALL + ["up", "b0"], "thorough"),
-    ("step_down16_bump_b0", "down, MIN_ALIGN 16 (every block 16-aligned: no unfit shrink)", OPS_ALL[:-1] + ["b0"], "thorough"),
+    ("step_down16_bump_b0", "down, MIN_ALIGN 16 (every block 16-aligned: no unfit shrink)", [t for t in OPS_ALL if t != "unfit"] + ["b0"], "thorough"),
     ("step_up4_scope_b0", "up, MIN_ALIGN 4, through BumpScope (as_scope)", OPS_ALL + ["up", "b0"], "thorough"),
     ("step_up1_nodealloc_b0", "up, WithoutDealloc(&bump)", OPS_ALL + ["up", "b0"], "thorough"),
     ("step_down1_nodealloc_b0", "down, WithoutDealloc(&bump)", OPS_ALL + ["b0"], "thorough"),
@@ -167,6 +167,8 @@ for name, inst, tags, tier in [
     ("step_down1_noshrink_b0", "down, WithoutShrink(&bump)", OPS_ALL + ["b0"], "thorough"),
     ("step_up1_set_nodealloc_b0", "up, DEALLOCATES = false", OPS_ALL + ["up", "b0"], "thorough"),
     ("step_down1_set_noshrink_b0", "down, SHRINKS = false", OPS_ALL + ["b0"], "thorough"),
+    ("step_up1_set_noshrink_b0", "up, SHRINKS = false", OPS_ALL + ["up", "b0"], "quick"),
+    ("step_down4_bump_b0", "down, MIN_ALIGN 4 (split + give back the lower part of a block whose end is not min-aligned)", OPS_ALL + ["b0"], "quick"),
 ]:
     A("step", name, STEP_PROPS + ["C07"], inst, tags=tags, tier=tier, mem_gb=7, timeout_s=2400)
 SWB = "history <= 4 ops: new, symbolic fillers A and B (every legal position of the 16-byte chunk), ONE operation whose new layout is CONCRETE and cannot fit (chunk switch certain; base allocator grants chunk 2 = 112 B); unwind 6"
@@ -205,6 +207,11 @@ for name, inst, tags, tier in [
     ("scope_checkpoint_down4_b1", "checkpoint() + reset_to(), down, MIN_ALIGN 4", ["b1"], "thorough"),
     ("scope_aligned_up1_b1", "scoped_aligned::<8>()", ["b1"], "thorough"),
     ("scope_aligned_down1_b0", "scoped_aligned::<8>(), down, inside the first chunk", ["fail"], "quick"),
+    ("scope_try_with_mut_spill_up1", "try_alloc_try_with_mut returning Err/Ok, Result slot spills into chunk 2", ["b1"], "quick"),
+    ("scope_try_with_mut_spill_down1", "same, down", ["b1"], "thorough"),
+    ("scope_try_with_spill_up1", "try_alloc_try_with returning Err/Ok, slot spills into chunk 2", ["b1"], "quick"),
+    ("scope_try_with_mut_fits_down4", "try_alloc_try_with_mut, slot fits, down, MIN_ALIGN 4", ["fits"], "thorough"),
+    ("scope_try_with_fits_up1", "try_alloc_try_with, slot fits", ["fits"], "quick"),
 ]:
     A("scope", name, ["C03"] + (["C18"] if "aligned" in name else []), inst, tags=tags, tier=tier, mem_gb=8, bounds=SCB)
 
@@ -221,6 +228,9 @@ for name, inst, tags, tier in [
     ("release_drop_up1_extra8_c2", "base allocator hands out 8 bytes more than requested", [], "thorough"),
     ("release_reset_down1_extra24_c2", "down, base allocator hands out 24 bytes more", [], "thorough"),
     ("release_unallocated_unused", "unused unallocated Bump: 0 base-allocator calls", [], "quick"),
+    ("release_drop_over_up1_c2", "over-aligned base allocator (header align 32): release layout alignment", [], "quick"),
+    ("release_reset_over_down1_c2", "over-aligned base allocator, down, reset", [], "thorough"),
+    ("release_drop_stateful_down1_c2", "stateful base allocator (48-byte header), down", [], "thorough"),
 ]:
     A("chunks", name, ["C05"], inst, tags=tags, tier=tier, mem_gb=10, timeout_s=2400, bounds=C5B)
 
@@ -345,6 +355,9 @@ for name, props, inst, tags, tier in [
     ("vec_split_independent_down1", ["C16"], "same, down", [], "quick"),
     ("vec_split_independent_up1_b1", ["C16"], "same, growth may create chunk 2", [], "thorough"),
     ("vec_reserve_any", ["C08", "C07"], "try_reserve / try_reserve_exact with ANY additional (full width)", [], "quick"),
+    ("vec_shrink_min_align_down8", ["C10", "C08", "C01"], "BumpVec<u8> shrink_to_fit / shrink_to / into_boxed_slice, down, MIN_ALIGN 8 > align_of::<u8>()", [], "quick"),
+    ("vec_shrink_min_align_up4", ["C10", "C08", "C01"], "same, up, MIN_ALIGN 4", [], "quick"),
+    ("vec_shrink_min_align_down1", ["C10", "C08"], "same, down, MIN_ALIGN 1", [], "thorough"),
 ]:
     A("vecs", name, props, inst, tags=tags, tier=tier, mem_gb=8, bounds="BumpVec with <= 4 elements in the 16-byte chunk, concrete shape, symbolic values / split point / follow-up; unwind 8")
 
